@@ -1369,6 +1369,48 @@ def make_scale_gen(emitter):
     return gen
 
 
+def make_long_gen():
+    """LONG uninterrupted histories of GradientArborescenceEmitter with Adam (restart_rule basic, check_stop never
+    true, at least one solution selected in every tell): more than 400 consecutive optimizer steps, every one held to
+    the documented rule; every tell is followed by an ask() WITHOUT a new ask_dqd / tell_dqd (the gradients are reused:
+    the rows must branch from the solution point as tell left it).  Deterministic; not shrunk (one run takes seconds)."""
+    import random as _random
+    it = {"i": 0}
+    profiles = [("adam:1/100", "0", True), ("adam:1/20", "1/100", False), ("adam:1/8", "0", True),
+                ("adam:1/100", "1/2", True)]
+
+    def gen(_rng):
+        i = it["i"]
+        it["i"] += 1
+        opt, l2, norm = profiles[i % len(profiles)]
+        rng = _random.Random(1000 + i)
+        n, md, batch = 2, 1, 2
+        m = md + 1
+        case = {"emitter": "gae", "n": n, "mdim": md, "batch": batch, "exact": False, "norm": norm, "opt": opt,
+                "l2": l2, "sel": "filter", "rule": "basic", "eps": "1/100000000", "x0": ["3", "-5/4"],
+                "seed": 11 + i, "aseed": 5 + i}
+        ops = [gen_arch_add(rng, n, md), {"op": "tell_dqd", "jac": gen_jac(rng, m, n, "dyadic")}]
+        for k in range(410):
+            ops.append({"op": "ask", "coeffs": [[dy(rng, 8, 2) for _ in range(m)] for _ in range(batch)]})
+            status = [rng.choice([0, 1, 2]) for _ in range(batch)]
+            if not any(status):
+                status[rng.randrange(batch)] = 1
+            perm = list(range(batch))
+            rng.shuffle(perm)
+            ops.append({"op": "tell", "status": status, "perm": perm, "stop": False, "sols": "last",
+                        "srows": [[dy(rng) for _ in range(n)] for _ in range(batch)]})
+            if k % 97 == 50:
+                ops.append({"op": "tell_dqd", "jac": gen_jac(rng, m, n, "float" if norm else "dyadic")})
+        ops.append({"op": "ask"  , "coeffs": [[dy(rng, 8, 2) for _ in range(m)] for _ in range(batch)]})
+        ops.append({"op": "ask_dqd"})
+        # the generic shrinker is keyed on "ops"; this stratum is explored with another key so that a failing
+        # 800-operation history is reported as it is instead of being re-run hundreds of times
+        case["ops"] = [{"op": "cfg", "tag": f"gae-long/{opt}/{l2}/{norm}/{i}"}] + ops
+        return case
+
+    return gen
+
+
 def make_gop_gen():
     """the gop stratum; its first cases are fixed shapes drawn on EVERY run: a one-dimensional solution space with
     several rows, for both measure_gradients settings (where a squeeze or a broadcast collapses (batch, 1) arrays)"""
@@ -1410,6 +1452,8 @@ def run(ctx):
         ctx.explore(name, (lambda rng, name=name: gen_gae(rng, name)), rc, ctx.n(nq, nt), nontrivial=nontrivial,
                     time_budget=tq if quick else tt)
     ctx.explore("gop", make_gop_gen(), rc, ctx.n(220, 8000), nontrivial=nontrivial, time_budget=9 if quick else 110)
+    ctx.explore("gae-long", make_long_gen(), rc, ctx.n(1, 4), nontrivial=nontrivial, shrink_key="no-shrinking",
+                time_budget=None)
     ctx.explore("gae-scale", make_scale_gen("gae"), rc, ctx.n(60, 2500), nontrivial=nontrivial,
                 time_budget=4 if quick else 45)
     ctx.explore("gop-scale", make_scale_gen("gop"), rc, ctx.n(60, 2500), nontrivial=nontrivial,
